@@ -240,6 +240,11 @@ func c11(args []string) error {
 		if k%7 == 0 {
 			x2 = -x1 + 1/d // nearly symmetric about zero: the sum cancels
 		}
+		if k%11 == 0 { // subnormal and huge magnitudes whose midpoint is a float64 (halving each term first would round)
+			ext := [][2]float64{{5e-324, 5e-324}, {5e-324, 1.5e-323}, {-5e-324, 5e-324}, {1e308, -1e308}, {-1.5e-323, -5e-324}, {1e-320, 3e-320}, {2.5e-323, 2.5e-323}}[k/11%7]
+			x1, x2 = ext[0], ext[1]
+			y1, y2 = ext[1], ext[0]
+		}
 		pts := []geometry.Point{{X: x1, Y: y1}, {X: x2, Y: y2}}
 		minx, maxx, miny, maxy := math.Min(x1, x2), math.Max(x1, x2), math.Min(y1, y2), math.Max(y1, y2)
 		var o geojson.Object
